@@ -64,3 +64,26 @@ package keeper
 //@   invariant[C06.eb.minpower] rangeindex == -1 || res_SortByPower_2[rangeindex] >= 1
 //@ loop #6
 //@   invariant true
+
+// ---------------------------------------------------------------------------------------------
+// C18: each genesis-export accessor iterates the prefix of its own collection
+//@ func (Keeper).GetAllOptOutsToFinish
+//@   before[C18.gaotf.prefix] KVStorePrefixIterator requires arg_prefix == bytelit(g("x/dogfood/types.OptOutsToFinishBytePrefix"))
+//@ loop #1
+//@   invariant true
+//@ loop #2
+//@   invariant true
+
+//@ func (Keeper).GetAllConsAddrsToPrune
+//@   before[C18.gacatp.prefix] KVStorePrefixIterator requires arg_prefix == bytelit(g("x/dogfood/types.ConsensusAddrsToPruneBytePrefix"))
+//@ loop #1
+//@   invariant true
+//@ loop #2
+//@   invariant true
+
+//@ func (Keeper).GetAllUndelegationsToMature
+//@   before[C18.gautm.prefix] KVStorePrefixIterator requires arg_prefix == bytelit(g("x/dogfood/types.UnbondingReleaseMaturityBytePrefix"))
+//@ loop #1
+//@   invariant true
+//@ loop #2
+//@   invariant true
